@@ -135,7 +135,9 @@ CLAIMED.update({
 CLAIMED.update({
     "C07": {
         "text": "The pattern dispatch chain of String::into_identifier is REGENERATED from src/identifier.rs on every run "
-                "(Model/GeneratedIdent.v) and ident_table_is_into_identifier proves it equal to the model's into_identifier. "
+                "(Model/GeneratedIdent.v) and ident_table_is_into_identifier proves it equal to the model's into_identifier; the acceptance "
+                "tables of the three automaton loops of src/solver.rs are regenerated too (Model/GeneratedAho.v) and "
+                "aho_tables_are_mtype_holds proves them equal to the meaning the model gives the automaton forms. "
                 "Model/PatSpec.v states the documented meaning of a pattern text (`documented`) without reference to the loader; "
                 "single_pattern_exact proves that for EVERY pattern text and EVERY document string the predicate the loader builds "
                 "(plain search, or one-needle case-insensitive automaton, or regex) is true exactly when the documented relation "
